@@ -470,8 +470,9 @@ def toy : Prims :=
   { md5 := fun x => fit 16 x
     sha256 := fun x => fit 32 ((x.length % 256).toUInt8 :: x)
     aesEnc := fun _ b => fit 16 (b.map (fun (x : UInt8) => x + 1))
-    aesDec := fun _ c => c.map (fun (x : UInt8) => x - 1)
-    hash2b := fun pw salt u => fit 32 ((pw.length % 256).toUInt8 :: (pw ++ salt ++ u)) }
+    aesDec := fun _ c => c.map (fun (x : UInt8) => x - 1),
+    sha384 := fun x => fit 48 ((x.length % 256).toUInt8 :: x)
+    sha512 := fun x => fit 64 ((x.length % 256).toUInt8 :: x) }
 
 theorem toy_blockOK (key : Bytes) : BlockOK toy key := by
   constructor
@@ -525,7 +526,7 @@ def wText (cfg : Config) (pw : Bytes) : Option Bytes :=
 def SECRET : Bytes := [115, 101, 99, 114, 101, 116, 32, 116, 101, 120, 116]
 
 /-- sanity of the witness set-up: the user password restores the text (V1 and R6). -/
-theorem witness_user_ok_r6 : wText (wCfg .v5 OWNER USER) USER = some SECRET := by decide +kernel
+theorem witness_user_ok_r6 : wText (wCfg .r5 OWNER USER) USER = some SECRET := by decide +kernel
 
 /-! ### F-C05-a, symbolically (all primitives): Algorithm 7 authenticates the owner, `decode` then
 derives the key from the owner password as if it were the user password. -/
@@ -690,13 +691,13 @@ theorem doc_rt_owner_r234 (P : Prims) (d : Doc) (enc : Dict) (a : Alg) (ownerPw 
   simp only [hd, ha, hOwn, hUsr, decodeState_owner_eq_user P enc a _ ownerPw userPw ha hr hO hU hno]
 
 /-- with R6 the owner password does restore the text. -/
-theorem witness_owner_r6_ok : wText (wCfg .v5 OWNER USER) OWNER = some SECRET := by decide +kernel
+theorem witness_owner_r6_ok : wText (wCfg .r5 OWNER USER) OWNER = some SECRET := by decide +kernel
 
 /-- (F-C05-c, repaired in /repo 422f3cc) R5 / R6 passwords of more than 127 bytes: `try_from` now
 truncates like every check does, so a 128-byte user and a 200-byte owner password open the document. -/
 theorem doc_rt_over127 :
-    wText (wCfg .v5 (List.replicate 200 111) (List.replicate 128 117)) (List.replicate 128 117) = some SECRET ∧
-    wText (wCfg .v5 (List.replicate 200 111) (List.replicate 128 117)) (List.replicate 200 111) = some SECRET := by
+    wText (wCfg .r5 (List.replicate 200 111) (List.replicate 128 117)) (List.replicate 128 117) = some SECRET ∧
+    wText (wCfg .r5 (List.replicate 200 111) (List.replicate 128 117)) (List.replicate 200 111) = some SECRET := by
   constructor <;> decide +kernel
 
 /-- … for all primitives and all passwords: creation looks only at the first 127 bytes, exactly like the checks -/
